@@ -111,7 +111,7 @@ def run(P, tier="quick"):
                                            "Hz: with any unit other than Hz the ordering test is wrong" % n.text()[:90], n.line))
                     else:
                         R.ok("R34a|%s|%s|%s" % (FILE, f.name, anchor), set(PROPS))
-    if nsink < 3:
+    if nsink < 2:       # V1 (one or two add_frequency sites, depending on whether the 2-port and n-port loops share a helper) and V2
         raise AnalysisBroken("R34a: only %d frequency stores found in the Touchstone loader" % nsink)
     # (3) unit keywords assign the multiplier: every case arm of the option switch that mentions a unit token
     f = P.need_func("_vnadata_load_touchstone", FILE)
